@@ -62,6 +62,41 @@ func main() {
 				}
 			}
 		}
+	case "builtins":
+		E, err := newEngine()
+		if err != nil {
+			fmt.Fprintln(os.Stderr, err)
+			os.Exit(2)
+		}
+		t := E.evalNewContext()
+		for _, e := range t.errs {
+			fmt.Println("ERR", e)
+		}
+		var names []string
+		for n := range t.objs {
+			names = append(names, n)
+		}
+		sort.Strings(names)
+		for _, n := range names {
+			o := t.objs[n]
+			fmt.Printf("OBJ %s class=%s proto=%s\n", n, o.class, o.proto)
+			var ks []string
+			for k := range o.props {
+				ks = append(ks, k)
+			}
+			sort.Strings(ks)
+			for _, k := range ks {
+				pr := o.props[k]
+				ln, call := "", ""
+				if pr.obj != nil {
+					if lp := pr.obj.props["length"]; lp != nil {
+						ln = lp.text
+					}
+					call = pr.obj.call
+				}
+				fmt.Printf("  %s.%s mode=%#o kind=%s ref=%s len=%s call=%s text=%s\n", n, k, pr.mode, pr.kind, pr.ref, ln, call, pr.text)
+			}
+		}
 	case "vc":
 		cmdVC(os.Args[2:])
 	case "check":
